@@ -114,8 +114,12 @@ def run_case(world, iface, channel, entry, raw):
             env = servers.make_environ(req)
             if channel == "path" and all(ord(c) < 256 for c in kw["path"]):
                 env["PATH_INFO"] = kw["path"]      # raw bytes as a server hands them over (Latin-1), not necessarily UTF-8
+            if channel == "query" and all(ord(c) < 256 for c in raw):
+                env["QUERY_STRING"] = raw
         else:
             scope = servers.make_scope(req)
+            if channel == "query" and all(ord(c) < 256 for c in raw):
+                scope["query_string"] = raw.encode("latin-1")
     except (UnicodeEncodeError, ValueError):
         return "skip", None     # not expressible on this interface (e.g. non-Latin-1 header text)
     accessor = {"url": "url", "query_params": "query_params", "cookies": "cookies", "accepted": "accepted_types", "content_type": "content_type",
